@@ -49,6 +49,16 @@ RelinAbs(a) == [lvl |-> reg[a].lvl, deg |-> 1, nb |-> Max2(reg[a].nb, KSB) + 1]
 RelinEnabled(a) == Live(a) /\ reg[a].deg = 2 /\ RelinAbs(a).nb <= Budget(reg[a].lvl)
 MulScAbs(a) == [lvl |-> reg[a].lvl, deg |-> reg[a].deg, nb |-> reg[a].nb + LogT]
 MulScEnabled(a) == Live(a) /\ MulScAbs(a).nb <= Budget(reg[a].lvl)
+PtMulAbs(a) == [lvl |-> reg[a].lvl, deg |-> reg[a].deg, nb |-> reg[a].nb + LogN + LogT + 1]
+PtMulEnabled(a) == Live(a) /\ PtMulAbs(a).nb <= Budget(reg[a].lvl)
+PtAddAbs(a) == [lvl |-> reg[a].lvl, deg |-> reg[a].deg, nb |-> reg[a].nb + LogT + 1]     \* scale matching may multiply by a unit
+PtAddEnabled(a) == Live(a) /\ PtAddAbs(a).nb <= Budget(reg[a].lvl)
+\* out <- out + a * b with relinearisation: the product is brought to the scale of out (or both to a common one)
+MTAAbs(a, b, o) == [lvl |-> Min2(Min2(reg[a].lvl, reg[b].lvl), reg[o].lvl), deg |-> 1,
+                    nb |-> Max2(Max2(reg[o].nb, TensorNb(reg[a].nb, reg[b].nb)) + LogT, KSB) + 1]
+MTAEnabled(a, b, o) == /\ Live(a) /\ Live(b) /\ Live(o) /\ o # a /\ o # b
+                       /\ reg[a].deg = 1 /\ reg[b].deg = 1 /\ reg[o].deg = 1
+                       /\ MTAAbs(a, b, o).nb <= Budget(MTAAbs(a, b, o).lvl)
 LoadEnabled(lvl) == NB0 <= Budget(lvl)
 
 Put(o, abs, m, s) == reg' = [reg EXCEPT ![o] = [live |-> TRUE, lvl |-> abs.lvl, deg |-> abs.deg, nb |-> abs.nb, m |-> m, s |-> s]]
@@ -86,6 +96,23 @@ MulSc(a, kind, o, m) ==
     /\ MulScEnabled(a)
     /\ Put(o, MulScAbs(a), m, reg[a].s)
     /\ Log([op |-> "MulSc", a |-> a, b |-> 0, o |-> o, lvl |-> 0, kind |-> kind])
+
+AddSc(a, kind, o, m) ==
+    /\ Live(a) /\ reg[a].nb + 1 <= Budget(reg[a].lvl)
+    /\ Put(o, [lvl |-> reg[a].lvl, deg |-> reg[a].deg, nb |-> reg[a].nb + 1], m, reg[a].s)
+    /\ Log([op |-> "AddSc", a |-> a, b |-> 0, o |-> o, lvl |-> 0, kind |-> kind])
+MulPt(a, kind, o, m, s) ==
+    /\ PtMulEnabled(a)
+    /\ Put(o, PtMulAbs(a), m, s)
+    /\ Log([op |-> "MulPt", a |-> a, b |-> 0, o |-> o, lvl |-> 0, kind |-> kind])
+AddPt(a, kind, o, m, s) ==
+    /\ PtAddEnabled(a)
+    /\ Put(o, PtAddAbs(a), m, s)
+    /\ Log([op |-> "AddPt", a |-> a, b |-> 0, o |-> o, lvl |-> 0, kind |-> kind])
+MulRelinThenAdd(a, b, o, m, s) ==
+    /\ MTAEnabled(a, b, o)
+    /\ Put(o, MTAAbs(a, b, o), m, s)
+    /\ Log([op |-> "MulRelinThenAdd", a |-> a, b |-> b, o |-> o, lvl |-> 0, kind |-> ""])
 
 Init == reg = [r \in Regs |-> Null] /\ hist = <<>>
 TypeOK == \A r \in Regs : reg[r].lvl \in 0..L /\ reg[r].deg \in 0..2
